@@ -498,4 +498,197 @@ theorem first_exceed_timed (t : Nat → Int) (l : Int) (b P : Nat) (h0 : t 0 ≤
   | zero => omega
   | succ m => have := hgap m; have := h2 m (Nat.lt_succ_self _); omega
 
+/-! ## Part 2 — the sender of a token supervises its pass -/
+
+/-- `handle_telegram` never touches the bus-activity bookkeeping. -/
+theorem handleTelegram_stamp (c : Ctx) (now : Int) (t : Telegram) (isLast : Bool) (c' : Ctx)
+    (h : handleTelegram c now t isLast = .ok c') : c'.s.lastBusActivity = c.s.lastBusActivity := by
+  unfold handleTelegram at h
+  dsimp only at h
+  repeat' split at h
+  all_goals first
+    | (cases h; done)
+    | (cases h; rfl)
+    | (obtain ⟨s', hs', rfl⟩ := tr_cases _ _ _ _ h
+       first
+         | (have := toListenToken_eq hs'; subst this; rfl)
+         | (have := toUseToken_eq hs'; subst this; rfl))
+
+theorem foldIdle_stamp (now : Int) : ∀ (calls : List (Telegram × Bool)) (c c' : Ctx),
+    foldTelegrams (fun c t isLast => handleTelegram (upd c fun s => markRx s now) now t isLast) c calls = .ok c' →
+    c.s.lastBusActivity = some now → c'.s.lastBusActivity = some now := by
+  intro calls
+  induction calls with
+  | nil => intro c c' h hl; simp only [foldTelegrams] at h; cases h; exact hl
+  | cons x rest ih =>
+    intro c c' h hl
+    obtain ⟨t, l⟩ := x
+    simp only [foldTelegrams] at h
+    cases h1 : handleTelegram (upd c fun s => markRx s now) now t l with
+    | panic s => rw [h1] at h; cases h
+    | ok c1 =>
+      rw [h1] at h
+      simp only [Res.bind] at h
+      refine ih c1 c' h ?_
+      rw [handleTelegram_stamp _ now t l c1 h1]
+      simp only [upd]
+      rw [markRx_at _ now now hl (Int.le_refl _)]
+
+/-- `do_check_token_pass` with the slot time not expired: either no complete telegram has arrived —
+then only the receive buffer is (possibly) trimmed — or a telegram was heard: supervision ends, the
+stamp is the poll time. -/
+theorem doCheckTokenPass_waits (c : Ctx) (now l1 : Int) (att : Attempt) (c' : Ctx)
+    (hst : c.s.st = .checkTokenPass att) (hl : c.s.lastBusActivity = some l1) (hle : l1 ≤ now)
+    (hq : ¬ now > l1 + (c.s.p.slotTime : Nat)) (h : doCheckTokenPass c now = .ok c') :
+    (∃ rx' ret, receiveAll c.rx = .done rx' [] ret ∧ c' = { c with rx := rx' }) ∨
+    (c'.s.lastBusActivity = some now ∧ ∃ rx' x rest ret, receiveAll c.rx = .done rx' (x :: rest) ret) := by
+  unfold doCheckTokenPass at h
+  rw [hst] at h
+  simp only at h
+  rw [checkSlot_some _ _ _ hl] at h
+  simp only [decide_eq_true_eq] at h
+  rw [if_neg hq] at h
+  rcases hrx : receiveAll c.rx with ⟨rx', calls, ret⟩ | _ | _ <;> rw [hrx] at h <;> simp only at h
+  · cases calls with
+    | nil => cases h; exact .inl ⟨rx', ret, rfl, rfl⟩
+    | cons x rest =>
+      obtain ⟨t, l⟩ := x
+      right
+      refine ⟨?_, rx', (t, l), rest, ret, rfl⟩
+      simp only at h
+      rw [markRx_at _ _ _ hl hle] at h
+      cases h1 : tr { c with rx := rx', s := { c.s with pendingBytes := 0, lastBusActivity := some now } } toActiveIdle
+          "transition_active_idle" with
+      | panic s => rw [h1] at h; cases h
+      | ok c1 =>
+        rw [h1] at h
+        simp only [Res.bind] at h
+        obtain ⟨s', hs', rfl⟩ := tr_cases _ _ _ _ h1
+        have := toActiveIdle_inv hs'
+        subst this
+        cases h2 : handleTelegram
+            { c with
+              rx := rx',
+              s := { c.s with pendingBytes := 0, lastBusActivity := some now, st := .activeIdle none none 0 } }
+            now t l with
+        | panic s => rw [h2] at h; cases h
+        | ok c2 =>
+          rw [h2] at h
+          simp only at h
+          exact foldIdle_stamp now rest c2 c' h (by rw [handleTelegram_stamp _ now t l c2 h2])
+  · cases h
+  · cases h
+
+/-- **One poll of a supervising sender that does not find the slot time expired** — because the poll
+is not later than stamp + slot time, or because a new byte is pending (then whatever the time).
+Nothing is transmitted, no application is called.  Either no complete telegram has arrived: the station
+is unchanged except that `check_for_bus_activity` has registered the new bytes (stamp := poll time,
+pending count := buffer length); or a telegram was heard: supervision ends (the state is no longer
+`CheckTokenPass`) and the stamp is the poll time. -/
+theorem check_poll_waits (s : Station) (apps : Apps) (now : Int) (rx : Bytes) (c' : Ctx) (att : Attempt) (l : Int)
+    (hon : s.online = true) (hst : s.st = .checkTokenPass att) (hl : s.lastBusActivity = some l) (hlt : l < now)
+    (hne : s.pendingBytes < rx.length ∨ now ≤ l + (s.p.slotTime : Nat))
+    (h : s.poll apps now false rx = .ok c') :
+    c'.tx = none ∧ c'.calls = [] ∧ c'.apps = apps ∧ c'.s.p = s.p ∧ c'.s.online = true ∧
+    ((c'.s = checkBusActivity s now rx.length ∧ ∃ rx' ret, receiveAll rx = .done rx' [] ret ∧ c'.rx = rx') ∨
+     (c'.s.lastBusActivity = some now ∧ (∀ a, c'.s.st ≠ .checkTokenPass a) ∧
+        ∃ rx' x rest ret, receiveAll rx = .done rx' (x :: rest) ret)) := by
+  have hlate : ∀ l', s.lastBusActivity = some l' → l' < now := by
+    intro l' hl'; rw [hl] at hl'; cases hl'; exact hlt
+  obtain ⟨hf1, hf2, -, hf4, -⟩ := checkBA_fields s now rx.length
+  obtain ⟨l1, hl1, hle1, hcase⟩ := checkBA_stamp s now rx.length hlate (.inr ⟨l, hl⟩)
+  rw [poll_dispatch s apps now rx hon (by rw [hst]; simp) (by rw [hst]; simp) hlate] at h
+  unfold dispatch at h
+  simp only [hf1, hst] at h
+  have hq : ¬ now > l1 + ((checkBusActivity s now rx.length).p.slotTime : Nat) := by
+    rw [hf2]
+    rcases hcase with ⟨_, rfl⟩ | ⟨hn, hl'⟩
+    · omega
+    · rcases hne with h' | h'
+      · exact absurd h' hn
+      · rw [hl] at hl'; cases hl'; omega
+  have hst1 : ({ s := checkBusActivity s now rx.length, apps := apps, rx := rx } : Ctx).s.st = .checkTokenPass att := by
+    simp only [hf1, hst]
+  obtain ⟨hqu, hon', hpost⟩ := doCheckTokenPass_eff _ c' now att hst1 h
+  have hex : (checkSlotExpired (checkBusActivity s now rx.length) now).2 = false := by
+    rw [checkSlot_some _ _ _ hl1]
+    simpa using hq
+  have htx : c'.tx = none := by
+    rcases hpost with ⟨hex', -⟩ | ⟨-, rx', calls, ret, -, hc⟩
+    · simp only at hex'; rw [hex] at hex'; cases hex'
+    · rcases hc with ⟨-, -, -, ht⟩ | ⟨-, -, ht, -⟩ <;> exact ht
+  refine ⟨htx, hqu.calls, hqu.apps, hqu.p.trans hf2, hon'.trans (hf4.trans hon), ?_⟩
+  rcases doCheckTokenPass_waits _ now l1 att c' hst1 hl1 hle1 hq h with ⟨rx', ret, hrx, rfl⟩ | ⟨hs, hr⟩
+  · exact .inl ⟨rfl, rx', ret, hrx, rfl⟩
+  · refine .inr ⟨hs, ?_, hr⟩
+    obtain ⟨rx0, x, rest, ret0, hrx0⟩ := hr
+    rcases hpost with ⟨hex', -⟩ | ⟨-, rx', calls, ret, hrx, hc⟩
+    · simp only at hex'; rw [hex] at hex'; cases hex'
+    · simp only at hrx
+      rw [hrx0] at hrx
+      cases hrx
+      rcases hc with ⟨hc0, -⟩ | ⟨-, -, -, hs'⟩
+      · cases hc0
+      · intro a ha
+        rcases hs' with ⟨_, _, _, h'⟩ | ⟨_, _, h'⟩ | ⟨_, _, _, _, _, _, _, h'⟩ <;> rw [h'] at ha <;> cases ha
+
+/-- What the polls of a supervising station must look like for the slot time never to be found
+expired: starting from stamp `l` and pending count `n`, every poll `(a, rx)` is either not later than
+the stamp (no-op), or sees more bytes than accounted for (then stamp := `a`, count := `|rx|`), or is
+not later than stamp + slot time. -/
+def Dense (slot : Nat) : Int → Nat → List (Int × Bytes) → Prop
+  | _, _, [] => True
+  | l, n, (a, rx) :: rest =>
+    if a ≤ l then Dense slot l n rest
+    else if n < rx.length then Dense slot a rx.length rest
+    else a ≤ l + slot ∧ Dense slot l n rest
+
+/-- All polls of the list return regularly, transmit nothing and call no application, for as long as
+the station stays in `CheckTokenPass att` (it leaves that state only by hearing a complete telegram). -/
+def SupervisesQuietly (att : Attempt) : Station → Apps → List (Int × Bytes) → Prop
+  | _, _, [] => True
+  | s, apps, (a, rx) :: rest => ∃ c, s.poll apps a false rx = .ok c ∧ c.tx = none ∧ c.calls = [] ∧
+      (c.s.st = .checkTokenPass att → SupervisesQuietly att c.s c.apps rest)
+
+theorem sender_run (att : Attempt) (p : Params) : ∀ (polls : List (Int × Bytes)) (s : Station) (apps : Apps) (l : Int),
+    Inv s apps → s.online = true → s.st = .checkTokenPass att → s.lastBusActivity = some l → s.p = p →
+    Dense p.slotTime l s.pendingBytes polls → SupervisesQuietly att s apps polls := by
+  intro polls
+  induction polls with
+  | nil => intro s apps l _ _ _ _ _ _; trivial
+  | cons x rest ih =>
+    intro s apps l hinv hon hst hl hp hd
+    obtain ⟨a, rx⟩ := x
+    simp only [Dense] at hd
+    by_cases hle : a ≤ l
+    · rw [if_pos hle] at hd
+      refine ⟨_, poll_ongoing s apps a false rx hon (by rw [hst]; simp) (by rw [hst]; simp) l hl hle, rfl, rfl, fun _ => ?_⟩
+      exact ih s apps l hinv hon hst hl hp hd
+    · rw [if_neg hle] at hd
+      obtain ⟨c', hc', hinv', -⟩ := pollInner_good { s := s, apps := apps, rx := rx } a false hinv rfl
+      have hne : s.pendingBytes < rx.length ∨ a ≤ l + (s.p.slotTime : Nat) := by
+        by_cases hn : s.pendingBytes < rx.length
+        · exact .inl hn
+        · rw [if_neg hn] at hd; rw [hp]; exact .inr hd.1
+      obtain ⟨h1, h2, h3, h4, h5, h6⟩ := check_poll_waits s apps a rx c' att l hon hst hl (by omega) hne hc'
+      refine ⟨c', hc', h1, h2, fun hst' => ?_⟩
+      rcases h6 with ⟨hs, -⟩ | ⟨-, hno, -⟩
+      · have hlate : ∀ l', s.lastBusActivity = some l' → l' < a := by
+          intro l' hl'; rw [hl] at hl'; cases hl'; omega
+        have hlast := checkBA_last s a rx.length hlate
+        by_cases hn : s.pendingBytes < rx.length
+        · rw [if_pos hn] at hd
+          rw [if_pos hn] at hlast
+          refine ih c'.s c'.apps a hinv' h5 hst' (by rw [hs]; exact hlast) (h4.trans hp) ?_
+          have : c'.s.pendingBytes = rx.length := by
+            rw [hs]; unfold checkBusActivity; rw [if_pos hn]
+          rw [this]; exact hd
+        · rw [if_neg hn] at hd
+          rw [if_neg hn] at hlast
+          refine ih c'.s c'.apps l hinv' h5 hst' (by rw [hs, hlast]; exact hl) (h4.trans hp) ?_
+          have : c'.s.pendingBytes = s.pendingBytes := by
+            rw [hs]; unfold checkBusActivity; rw [if_neg hn]
+          rw [this]; exact hd.2
+      · exact absurd hst' (hno att)
+
 end PV
